@@ -8,7 +8,7 @@ use crate::sim::{catch, T0};
 use proptest::prelude::*;
 use serde::{Deserialize, Serialize};
 use serde_json::{json, Value};
-use std::collections::BTreeMap;
+use std::collections::{BTreeMap, BTreeSet};
 use std::net::SocketAddr;
 use vpncloud::table::ClaimTable;
 use vpncloud::types::{Address, Range};
@@ -72,17 +72,31 @@ pub struct TableCase {
     pub switch_timeout: u32,
     pub claim_timeout: u32,
     pub ops: Vec<Op>,
+    /// C13's clause on top of C11's: an address learned from peer P must resolve to P (and only P) until it is
+    /// learned from another peer, the switch timeout passes, or P is removed (used by the C13 check)
+    #[serde(default)]
+    pub strict_learning: bool,
 }
 
+pub const N_RANGES: u8 = 13;
+pub const N_ADDRS: u8 = 14;
+
 pub fn universe_ranges() -> Vec<Range> {
-    ["0.0.0.0/0", "10.0.0.0/8", "10.0.0.0/15", "10.1.0.0/16", "10.1.2.0/24", "10.1.2.3/32", "fd00::/8", "fd00:1::/32", "02:00:00:00:00:00/8"]
+    [
+        "0.0.0.0/0", "10.0.0.0/8", "10.0.0.0/15", "10.1.0.0/16", "10.1.2.0/24", "10.1.2.3/32", "fd00::/8", "fd00:1::/32", "02:00:00:00:00:00/8",
+        // nesting beyond 32 bits (IPv6 and MAC): longest-prefix match must not stop at an IPv4-sized prefix
+        "fd00:1:0:1::/64", "fd00:1:0:1::5/128", "02:11:22:33:00:00/32", "02:11:22:33:44:00/40",
+    ]
         .iter()
         .map(|s| s.parse().unwrap())
         .collect()
 }
 
 pub fn universe_addrs() -> Vec<Address> {
-    ["10.1.2.3", "10.1.2.4", "10.1.3.1", "10.0.0.1", "10.2.0.1", "11.0.0.1", "fd00:1::5", "fd00:2::5", "fe80::1", "02:11:22:33:44:55", "04:11:22:33:44:55"]
+    [
+        "10.1.2.3", "10.1.2.4", "10.1.3.1", "10.0.0.1", "10.2.0.1", "11.0.0.1", "fd00:1::5", "fd00:2::5", "fe80::1", "02:11:22:33:44:55", "04:11:22:33:44:55",
+        "fd00:1:0:1::5", "fd00:1:0:1::6", "02:11:22:33:55:01",
+    ]
         .iter()
         .map(|s| s.parse().unwrap())
         .collect()
@@ -115,15 +129,40 @@ pub struct RouteRef {
     decisions: BTreeMap<u8, Decision>,
     /// address index -> (peer it was learned from, when)
     learned: BTreeMap<u8, (u8, i64)>,
+    /// learned entries whose peer withdrew one of its own claims afterwards: the table may have dropped them
+    /// together with the decisions cached from that claim (C12), so they are no longer demanded
+    soft: BTreeSet<u8>,
+    /// last announced list per peer as given (with duplicates)
+    last_list: BTreeMap<u8, Vec<u8>>,
+    pub strict_learning: bool,
 }
 
 impl RouteRef {
     pub fn new(switch_timeout: u32, claim_timeout: u32, ranges: Vec<Range>) -> Self {
-        RouteRef { switch_timeout: switch_timeout as i64, claim_timeout: claim_timeout as i64, ranges, claims: BTreeMap::new(), decisions: BTreeMap::new(), learned: BTreeMap::new() }
+        RouteRef { switch_timeout: switch_timeout as i64, claim_timeout: claim_timeout as i64, ranges, claims: BTreeMap::new(), decisions: BTreeMap::new(), learned: BTreeMap::new(), soft: BTreeSet::new(), last_list: BTreeMap::new(), strict_learning: false }
     }
 
     pub fn announce(&mut self, now: i64, peer: u8, set: &[u8]) {
         let old: Vec<(u8, u8)> = self.claims.keys().filter(|(p, _)| *p == peer).copied().collect();
+        // an entry of the previous list (duplicates count) that the new list lacks is a withdrawal by that peer
+        let prev = self.last_list.insert(peer, set.to_vec()).unwrap_or_default();
+        let mut rest = set.to_vec();
+        let mut withdrew = false;
+        for r in prev {
+            match rest.iter().position(|x| *x == r) {
+                Some(i) => {
+                    rest.swap_remove(i);
+                }
+                None => withdrew = true,
+            }
+        }
+        if withdrew {
+            for (a, (lp, _)) in self.learned.iter() {
+                if *lp == peer {
+                    self.soft.insert(*a);
+                }
+            }
+        }
         for k in old {
             if !set.contains(&k.1) {
                 self.claims.remove(&k);
@@ -143,10 +182,14 @@ impl RouteRef {
         self.claims.retain(|(p, _), _| *p != peer);
         self.decisions.retain(|_, d| d.peer != peer);
         self.learned.retain(|_, (p, _)| *p != peer);
+        let l = &self.learned;
+        self.soft.retain(|a| l.contains_key(a));
+        self.last_list.remove(&peer);
     }
 
     pub fn learn(&mut self, now: i64, addr_idx: u8, peer: u8) {
         self.learned.insert(addr_idx, (peer, now));
+        self.soft.remove(&addr_idx);
     }
 
     /// claims of a peer that may be live now: set of range indices
@@ -164,6 +207,16 @@ impl RouteRef {
             let rg = &self.ranges[r as usize];
             ref_matches(&rg.base.data[..rg.base.len as usize], rg.prefix_len, &addr.data[..addr.len as usize])
         };
+        if self.strict_learning {
+            if let Some((lp, lt)) = self.learned.get(&addr_idx) {
+                if now < lt + self.switch_timeout && !self.soft.contains(&addr_idx) && result != Some(*lp) {
+                    return Err(format!(
+                        "learned-forgotten: address was learned from peer {} at t={} (switch timeout {}), that peer is still connected and nothing was learned since, but the lookup at t={} gives {:?}",
+                        lp, lt, self.switch_timeout, now, result
+                    ));
+                }
+            }
+        }
         let sure_max: Option<u8> = self.claims.iter().filter(|((_, r), c)| now < c.expiry && contains(*r)).map(|((_, r), _)| self.ranges[*r as usize].prefix_len).max();
         match result {
             None => {
@@ -220,6 +273,7 @@ pub fn run_table_case(ctx: &Ctx, c: &TableCase) -> Vec<Viol> {
     MockTimeSource::set_time(now);
     let mut table: ClaimTable<MockTimeSource> = ClaimTable::new(c.switch_timeout, c.claim_timeout);
     let mut model = RouteRef::new(c.switch_timeout, c.claim_timeout, ranges.clone());
+    model.strict_learning = c.strict_learning;
     let mut out = vec![];
     let mut nontrivial = false;
     let mut had_change = false;
@@ -281,7 +335,9 @@ pub fn run_table_case(ctx: &Ctx, c: &TableCase) -> Vec<Viol> {
                 match model.judge(now, ai, addr, res_peer) {
                     Ok(kind) => ctx.class(&format!("lookup:{}", kind)),
                     Err(why) => {
-                        let sig = if why.contains("holds no most-specific") || why.contains("no next hop") {
+                        let sig = if why.starts_with("learned-forgotten") {
+                            "learned-address-forgotten-before-timeout"
+                        } else if why.contains("holds no most-specific") || why.contains("no next hop") {
                             "lookup-not-most-specific-live-claim"
                         } else {
                             "cached-decision-outlives-timeout-or-claim"
@@ -303,12 +359,12 @@ pub fn run_table_case(ctx: &Ctx, c: &TableCase) -> Vec<Viol> {
     out
 }
 
-fn op_strategy() -> impl Strategy<Value = Op> {
+pub fn op_strategy() -> impl Strategy<Value = Op> {
     prop_oneof![
-        4 => (0u8..3, proptest::collection::vec(0u8..9, 0..4)).prop_map(|(p, s)| Op::Announce(p, s)),
+        4 => (0u8..3, proptest::collection::vec(0u8..N_RANGES, 0..4)).prop_map(|(p, s)| Op::Announce(p, s)),
         1 => (0u8..3).prop_map(Op::Disconnect),
-        6 => (0u8..11).prop_map(Op::Lookup),
-        1 => (0u8..3, 0u8..11).prop_map(|(p, a)| Op::Learn(p, a)),
+        6 => (0u8..N_ADDRS).prop_map(Op::Lookup),
+        1 => (0u8..3, 0u8..N_ADDRS).prop_map(|(p, a)| Op::Learn(p, a)),
         3 => prop_oneof![Just(0u32), Just(1), Just(2), Just(4), Just(5), Just(6), Just(11), Just(12), Just(13)].prop_map(Op::Tick),
     ]
 }
@@ -407,11 +463,40 @@ pub fn run(ctx: &Ctx) {
             ops.push(alphabet[(i % alphabet.len() as u64) as usize].clone());
             i /= alphabet.len() as u64;
         }
-        let c = TableCase { switch_timeout: 5, claim_timeout: 12, ops };
+        let c = TableCase { switch_timeout: 5, claim_timeout: 12, ops, strict_learning: false };
         let v = run_table_case(ctx, &c);
         ctx.report(v);
     });
     ctx.subspace(&format!("table histories: all sequences of length {} over a 12-op alphabet (incl. an address learned from a peer)", depth), total, true);
+
+    // ---- (b') the same over IPv6 / MAC claims nested beyond 32 bits (announcement order: less specific first and last)
+    let alphabet6: Vec<Op> = vec![
+        Op::Announce(0, vec![7]),      // fd00:1::/32
+        Op::Announce(1, vec![9]),      // fd00:1:0:1::/64
+        Op::Announce(2, vec![10]),     // fd00:1:0:1::5/128
+        Op::Announce(0, vec![11]),     // 02:11:22:33::/32 (MAC)
+        Op::Announce(1, vec![12, 8]),  // 02:11:22:33:44::/40 + 02::/8
+        Op::Announce(1, vec![]),
+        Op::Disconnect(2),
+        Op::Lookup(11),                // fd00:1:0:1::5
+        Op::Lookup(12),                // fd00:1:0:1::6
+        Op::Lookup(9),                 // 02:11:22:33:44:55
+        Op::Lookup(13),                // 02:11:22:33:55:01
+        Op::Tick(6),
+    ];
+    let depth6: u32 = ctx.tier.pick(5, 6);
+    let total6 = (alphabet6.len() as u64).pow(depth6);
+    ctx.par_range_chunked(total6, 4096, |_, mut i| {
+        let mut ops = Vec::with_capacity(depth6 as usize);
+        for _ in 0..depth6 {
+            ops.push(alphabet6[(i % alphabet6.len() as u64) as usize].clone());
+            i /= alphabet6.len() as u64;
+        }
+        let c = TableCase { switch_timeout: 5, claim_timeout: 12, ops, strict_learning: false };
+        let v = run_table_case(ctx, &c);
+        ctx.report(v);
+    });
+    ctx.subspace(&format!("table histories: all sequences of length {} over a 12-op alphabet of IPv6 / MAC claims nested beyond 32 bits", depth6), total6, true);
 
     // ---- (b) proptest histories
     let nh: u32 = ctx.tier.pick(40_000, 400_000);
@@ -420,7 +505,7 @@ pub fn run(ctx: &Ctx) {
         nh,
         || (prop_oneof![Just((5u32, 12u32)), Just((12, 5)), Just((1, 1)), Just((6, 6))], proptest::collection::vec(op_strategy(), 0..300)),
         |((s, c), ops)| {
-            let case = TableCase { switch_timeout: *s, claim_timeout: *c, ops: ops.clone() };
+            let case = TableCase { switch_timeout: *s, claim_timeout: *c, ops: ops.clone(), strict_learning: false };
             let v = run_table_case(ctx, &case);
             if ops.len() > 5 && ops.len() < 14 {
                 ctx.sample("table-history", || serde_json::to_value(&case).unwrap());
